@@ -61,6 +61,7 @@ func RunPlan(cli, root string, solo *SoloCache, p *Plan) *Outcome {
 			if _, ok := w.healthy[ev.Target]; ok {
 				delete(bad, ev.Target)
 			}
+		case EvEdit:
 		default:
 			nb, nh := 0, 0
 			var badKinds []string
